@@ -205,6 +205,14 @@ def build():
                     body += ["    " * k + f"function n{k}_{_ident(cid)}(x) {{", "    " * (k + 1) + "x += 1;"]
                 body += ["    " * (10 - k) + "}" for k in range(1, 11)]
         put(cid, _wrap(lang, body, cid), lang)
+        # banner comments: long runs of comment-leader characters
+        cid = f"{p}.banner"
+        lead = "#" if lang == "py" else "/"
+        body = [lead * 60, _comment(lang, "*" * 50), (lead * 2 + ";" * 40) if lang != "py" else "#" + ";" * 40 + "#" * 8]
+        if lang != "py":
+            body += ["/" + "*" * 70 + "/", "/*" + "*" * 40 + " section " + "*" * 40 + "*/", "/*" + "/" * 45 + "*/"]
+        body += _fn(lang, "b_" + _ident(cid), 5) + [lead * 45 + " end"]
+        put(cid, _wrap(lang, body, cid), lang)
         # two long functions of exactly the same length in one file
         cid = f"{p}.twins"
         body = _fn(lang, "t1_" + _ident(cid), 35) + [""] + _fn(lang, "t2_" + _ident(cid), 35, variant=1) + [""] + _fn(lang, "t3_" + _ident(cid), 62)
